@@ -199,6 +199,8 @@ class Interp:
         self.native = False  # concrete replay mode: no symbolic values expected
         self.yield_stack = []
         self.timeout_stack = []
+        self.nonneg_terms = set()
+        self._facts_cache = {}
 
     # ------------------------------------------------------------------
     # truthiness / formulas
@@ -401,6 +403,79 @@ class Interp:
                 return w
         return None
 
+    def _nonneg(self, t):
+        b = _syntactic_bounds(t)
+        if b is not None:
+            return b[0] >= 0
+        key = ("nonneg", t.get_id())
+        if key not in self._facts_cache:
+            self._facts_cache[key] = (not self.fmode) and self.ctx.prove(t >= 0)
+        return self._facts_cache[key]
+
+    def _bitspan(self, t):
+        """(lo, hi): t is a non-negative integer whose set bits all lie in [lo, hi); None if unknown."""
+        t = z3.simplify(t)
+        if z3.is_int_value(t):
+            v = t.as_long()
+            if v < 0:
+                return None
+            if v == 0:
+                return (0, 0)
+            lo = (v & -v).bit_length() - 1
+            return (lo, v.bit_length())
+        key = ("span", t.get_id())
+        if key in self._facts_cache:
+            return self._facts_cache[key]
+        res = None
+        shift = 0
+        core = t
+        if z3.is_app(t) and t.decl().kind() == z3.Z3_OP_ITE and z3.is_int_value(t.arg(1)) and z3.is_int_value(t.arg(2)):
+            spans = [self._bitspan(t.arg(1)), self._bitspan(t.arg(2))]
+            if None not in spans:
+                nz = [sp for sp in spans if sp != (0, 0)]
+                res = (min(sp[0] for sp in nz), max(sp[1] for sp in nz)) if nz else (0, 0)
+                self._facts_cache[key] = res
+                return res
+        if z3.is_app(t) and t.decl().kind() == z3.Z3_OP_MUL and t.num_args() == 2 and z3.is_int_value(t.arg(0)):
+            c = t.arg(0).as_long()
+            if c > 0 and c & (c - 1) == 0:
+                shift = c.bit_length() - 1
+                core = t.arg(1)
+        b = _syntactic_bounds(core)
+        hi = None
+        if b is not None and b[0] >= 0:
+            hi = b[1].bit_length()
+        elif not self.fmode:
+            for w in (1, 2, 3, 4, 8, 16):
+                if self.ctx.prove(z3.And(core >= 0, core < (1 << w))):
+                    hi = w
+                    break
+        if hi is not None:
+            res = (shift, shift + hi)
+        self._facts_cache[key] = res
+        return res
+
+    def _bitop_lia(self, op, ta, tb):
+        """Linear-arithmetic lowering of bit operators where it is exact: x & contiguous-mask on a
+        non-negative x, and | / ^ of operands with disjoint bit ranges (= their sum).  Keeps the VCs
+        in LIA instead of mixing int2bv with div/mod."""
+        if isinstance(op, ast.BitAnd):
+            for x, m in ((ta, tb), (tb, ta)):
+                if z3.is_int_value(m):
+                    mv = m.as_long()
+                    if mv == 0:
+                        return z3.IntVal(0)
+                    if mv > 0 and self._nonneg(x):
+                        lo = (mv & -mv).bit_length() - 1
+                        hi = mv.bit_length()
+                        if mv == (1 << hi) - (1 << lo):  # contiguous run of ones
+                            return z3.simplify(((x / (1 << lo)) % (1 << (hi - lo))) * (1 << lo))
+            return None
+        sa, sb = self._bitspan(ta), self._bitspan(tb)
+        if sa is not None and sb is not None and (sa[1] <= sb[0] or sb[1] <= sa[0] or sa == (0, 0) or sb == (0, 0)):
+            return z3.simplify(ta + tb)
+        return None
+
     def _int_binop(self, op, a, b):
         ta, tb = int_term(a), int_term(b)
         if isinstance(op, ast.Add):
@@ -449,7 +524,9 @@ class Interp:
                 if isinstance(op, ast.BitOr):
                     return SBool(z3.Or(_z(fa), _z(fb)))
                 return SBool(z3.Xor(_z(fa), _z(fb)))
-            # x & (2^k - 1) on a non-negative x is x mod 2^k; keeps the query in LIA
+            lowered = self._bitop_lia(op, ta, tb)
+            if lowered is not None:
+                return SInt(lowered)
             w = self._int_width(ta, tb)
             if w is None:
                 raise Unsupported("bitwise operator on an integer without a proved non-negative range")
@@ -847,6 +924,11 @@ class Interp:
         if z3.is_int_value(t):
             k = t.as_long()
             return z3.IntVal(k) if k >= 0 else length + k
+        if t.get_id() in self.nonneg_terms:
+            return t
+        b = _syntactic_bounds(t)
+        if b is not None and b[0] >= 0:
+            return t
         return z3.If(t < 0, length + t, t)
 
     def slice_bounds(self, lo, hi, length):
@@ -899,6 +981,8 @@ class Interp:
             i = z3.If(t < 0, n + t, t)
             if not self.fmode and not self.ctx.branch(z3.And(i >= 0, i < n)):
                 raise PyRaise(mk_exc(IndexError, "index out of range"))
+            if n > 8 and all(isinstance(x, int) and not isinstance(x, bool) and 0 <= x < 256 for x in obj):
+                return SInt(bv2int(z3.Int2BV(table_select(self.ctx, obj, i), 8)))
             return self.merge_cases([(i == k, obj[k]) for k in range(n)])
         if isinstance(obj, dict) and (isinstance(idx, (Sym, SObj)) or _has_sym(idx)):
             cases = [(self.eq(idx, k), v) for k, v in obj.items()]
@@ -1126,7 +1210,58 @@ class Interp:
         return SFunc(node, env, None, "<lambda>", defaults=tuple(defaults))
 
     def e_ListComp(self, node, env):
+        sym = self._symbolic_comprehension(node, env)
+        if sym is not None:
+            return sym
         return list(self._comprehension(node.generators, node.elt, env))
+
+    def _symbolic_comprehension(self, node, env):
+        """[elt for targets in zip(seqs..) / seq] over byte sequences of symbolic length: the map
+        rule.  Returns SymList(length, index var, element term)."""
+        if len(node.generators) != 1:
+            return None
+        g = node.generators[0]
+        if g.ifs or g.is_async:
+            return None
+        it = self.eval(g.iter, env)
+        from .calls import SymZip
+
+        seqs = it.seqs if isinstance(it, SymZip) else [it] if isinstance(it, SBytes) else None
+        if seqs is None:
+            return None
+        if not any(isinstance(q, SBytes) and not z3.is_int_value(z3.simplify(z3.Length(q.t))) for q in seqs):
+            return None
+        i = self.ctx.fresh_int("ci")
+        elems = []
+        lens = []
+        holders = []
+        for j, q in enumerate(seqs):
+            if isinstance(q, SBytes):
+                ph = z3.Const(f"__seq{j}", ByteSeq)
+                holders.append((ph, q.t))
+                elems.append(SInt(bv2int(ph[i])))
+                lens.append(z3.Length(q.t))
+            elif isinstance(q, (bytes, bytearray)):
+                elems.append(SInt(bv2int(z3.Int2BV(table_select(self.ctx, q, i), 8))))
+                lens.append(z3.IntVal(len(q)))
+            else:
+                raise Unsupported("symbolic comprehension over non-bytes sequence")
+        n = lens[0]
+        for l in lens[1:]:
+            n = z3.If(l < n, l, n)
+        e2 = Env({}, env)
+        item = tuple(elems) if isinstance(it, SymZip) else elems[0]
+        self.assign_target(g.target, item, e2)
+        prev = self.fmode
+        self.fmode = True
+        try:
+            t = self.eval(node.elt, e2)
+        finally:
+            self.fmode = prev
+        shape = z3.substitute(int_term(t), (i, z3.Int("__iv"))).sexpr()
+        real = SInt(z3.substitute(int_term(t), *holders)) if holders else t
+        return SymList(z3.simplify(n), i, real, [q for _ph, q in holders],
+                       [len(q) for q in seqs if isinstance(q, (bytes, bytearray))], shape)
 
     def e_GeneratorExp(self, node, env):
         # evaluated eagerly; the consumers supported (next/bytes/any/all/join/dict) do not observe laziness
@@ -1262,6 +1397,9 @@ class Interp:
             lo = int_term(self.eval(node.args[0], env))
             hi = int_term(self.eval(node.args[1], env))
             guard = z3.And([z3.And(v >= lo, v < hi) for v in vars_])
+            if z3.is_int_value(lo) and lo.as_long() >= 0:
+                for v in vars_:
+                    self.nonneg_terms.add(v.get_id())
         body = _z(self.formula(self.eval(lam.body, e2)))
         if kind == "forall":
             return SBool(z3.ForAll(vars_, z3.Implies(_z(guard), body)))
@@ -1581,6 +1719,47 @@ class Interp:
         from . import withs
 
         return withs.exec_with(self, node, env, is_async=True)
+
+
+_TABLES = {}
+
+
+def table_select(ctx, values, idx_term):
+    """Select from a concrete table of small ints by a symbolic index: one uninterpreted function per
+    table *content* (so equal tables are equal by congruence) with its ground facts asserted once per
+    path."""
+    key = tuple(int(v) for v in values)
+    if key not in _TABLES:
+        import hashlib
+
+        name = "tbl_" + hashlib.sha256(repr(key).encode()).hexdigest()[:10]
+        _TABLES[key] = z3.Function(name, z3.IntSort(), z3.IntSort())
+    f = _TABLES[key]
+    mark = ("table", f.name())
+    if mark not in ctx.ghost:
+        ctx.ghost[mark] = True
+        ctx.assume(z3.And([f(i) == v for i, v in enumerate(key)]))
+    return f(idx_term)
+
+
+class SymList:
+    """List of symbolic length given pointwise: element(i) for 0 <= i < n."""
+
+    def __init__(self, n, ivar, elem, seq_args=(), const_lens=(), shape=None):
+        self.n, self.ivar, self.elem, self.seq_args = n, ivar, elem, list(seq_args)
+        self.const_lens = tuple(const_lens)  # lengths of the concrete tables zipped in (they bound n)
+        self.shape = shape
+
+    def canonical(self):
+        """An uninterpreted function named after the *shape* of the element expression, applied to
+        the sequences it maps over: two comprehensions of the same shape over the same sequences are
+        the same term."""
+        import hashlib
+
+        shape = self.shape + "|" + repr(self.const_lens)
+        name = "map_" + hashlib.sha256(shape.encode()).hexdigest()[:10]
+        f = z3.Function(name, *[q.sort() for q in self.seq_args], ByteSeq)
+        return f(*self.seq_args)
 
 
 class UnpackableResult:
